@@ -121,7 +121,7 @@ def Req.zero : Req :=
     machine := none, machineFeature := none, mutation := none, sourceMachine := none,
     sourceApp := none, sourceOrg := none, cluster := none, command := none, storageObject := none }
 
-private def cnt (b : Bool) : Nat := if b then 1 else 0
+def cnt (b : Bool) : Nat := if b then 1 else 0
 
 /-- `(*flyio.Access).Validate` -/
 def validate (f : Req) : Errs :=
@@ -226,9 +226,9 @@ def prohibits : Cav B → Access → Errs
     | some (some m) => if (ms.getD []).contains m then [] else [.forResource]
   | .isUser _, _ => []
   | .validityWindow nb na, a =>
-    let now := a.nowSec + GoTime.unixToInternal
-    if GoTime.after now a.nowNsec (GoTime.absOfUnix64 na) 0 then [.unauthorized]
-    else if GoTime.before now a.nowNsec (GoTime.absOfUnix64 nb) 0 then [.unauthorized]
+    -- compared in unix seconds (after the repair of F10; before it, through time.Unix with int64 wrap-around)
+    if a.nowSec > na.toInt || (a.nowSec == na.toInt && a.nowNsec > 0) then [.unauthorized]
+    else if a.nowSec < nb.toInt then [.unauthorized]
     else []
   | .tp .., _ => [.badCaveat]
   | .bind .., _ => [.badCaveat]
